@@ -440,3 +440,46 @@ theorem renderSlash_head (p : Int) (l : Link) (rest : List Seg) (hp : 0 < p) :
   | q :: qs => exact ⟨renderLink l ++ 47 :: joinWith 47 (q :: qs), by simp [joinWith, hp']⟩
 
 end Cpppo.Route
+
+namespace Cpppo.Route
+
+/-! ### sessions -/
+
+section
+variable {σ ρ π : Type} (exec : σ → ρ → Option (σ × π)) (cfg : Config)
+
+/-- executing a list of frames one after the other, when every one is accepted and succeeds -/
+def runAll : σ → List (Option RoutePath × ρ) → Option σ
+  | st, [] => some st
+  | st, (rp, req) :: rest =>
+    if accept cfg rp then
+      match exec st req with
+      | some (st', _) => runAll st' rest
+      | none => none
+    else none
+
+
+theorem runAll_nil (st : σ) : runAll exec cfg st [] = some st := rfl
+
+theorem runAll_cons (st : σ) (rp : Option RoutePath) (req : ρ) (rest : List (Option RoutePath × ρ)) :
+    runAll exec cfg st ((rp, req) :: rest)
+      = if accept cfg rp then
+          match exec st req with
+          | some (st', _) => runAll exec cfg st' rest
+          | none => none
+        else none := by
+  rw [runAll]
+
+theorem sessionWith_nil (st : σ) : sessionWith exec cfg st [] = (st, []) := rfl
+
+theorem sessionWith_cons (st : σ) (rp : Option RoutePath) (req : ρ) (rest : List (Option RoutePath × ρ)) :
+    sessionWith exec cfg st ((rp, req) :: rest)
+      = if (serveWith exec cfg st rp req).2.status == 0 then
+          ((sessionWith exec cfg (serveWith exec cfg st rp req).1 rest).1,
+           (serveWith exec cfg st rp req).2 :: (sessionWith exec cfg (serveWith exec cfg st rp req).1 rest).2)
+        else ((serveWith exec cfg st rp req).1, [(serveWith exec cfg st rp req).2]) := by
+  rw [sessionWith]
+
+end
+
+end Cpppo.Route
